@@ -164,7 +164,18 @@ def shard_croo(spec, R):
             k = int(rng.integers(0, n + 1))
             s[n - k:] = 1  # a trailing run
         cases.append((s, "random"))
-    for s, mode in cases:
+    # trailing runs beyond what a narrow input dtype can count (lroo demands uint8, so the same array reaches croo)
+    for k in (255, 256, 257, 300, int(rng.integers(258, 700))):
+        n = k + int(rng.integers(0, 40))
+        s = (rng.random(n) < 0.6).astype(np.uint8)
+        s[n - k:] = 1
+        if n > k:
+            s[n - k - 1] = 0
+        cases.append((s, "long"))
+    DTYPES = [np.int64, np.uint8, np.int8, np.int16, np.int32, np.float32]
+    for ci, (s, mode) in enumerate(cases):
+        dt = DTYPES[ci % len(DTYPES)]
+        R.count(f"croo_input_{np.dtype(dt).name}")
         n = s.size
         time = pd.date_range("2000-01-01", periods=n, freq="10D")
         exp = o_croo(s.tolist())
@@ -178,8 +189,10 @@ def shard_croo(spec, R):
         # several stored orders at once: one pixel per permutation would need different time coords; run one by one
         for perm in perms:
             perm = np.asarray(perm, dtype=int)
-            da = xr.DataArray(s[perm].reshape(n, 1, 1).astype(np.int64), dims=["time", "y", "x"], coords={"time": time[perm]})
+            da = xr.DataArray(s[perm].reshape(n, 1, 1).astype(dt), dims=["time", "y", "x"], coords={"time": time[perm]})
             got = int(da.hdc.algo.croo().values[0, 0])
+            if exp > 255:
+                R.count("croo_runs_beyond_255")
             R.evaluation()
             R.count("croo_orders")
             if got != exp:
@@ -230,7 +243,7 @@ def finalize(agg, tier):
     out = []
     if c.get("exhaustive_series", 0) != 131070:
         out.append(f"{c.get('exhaustive_series', 0)} of 131070 binary series enumerated")
-    for k in ("long_series", "runs_beyond_255", "accessor_lroo_pixels", "accessor_runs_beyond_255", "croo_orders", "croo_cubes", "croo_series_exhaustive"):
+    for k in ("long_series", "runs_beyond_255", "accessor_lroo_pixels", "accessor_runs_beyond_255", "croo_orders", "croo_cubes", "croo_series_exhaustive", "croo_runs_beyond_255", "croo_input_uint8"):
         if c.get(k, 0) == 0:
             out.append(f"monitor/class {k} never observed")
     return out
